@@ -64,6 +64,8 @@ type target struct {
 	SkipDeferLit bool              // `defer func(){...}()` closures are dropped (logging only)
 	MutRange     bool              // `for _, e := range xs { e.f = v }` over a slice of POINTERS: the loop rebuilds `xs` element by element
 	Post         string            // raw Lean text emitted after the definition (total wrappers of partial definitions)
+	Pre          string            // raw Lean `let` lines opening the body (names a bare `return` / the fall-through refers to)
+	Sets         []string          // Go maps used as sets (`map[K]struct{}`): literal = empty list, comma-ok read = membership, index write = insert
 }
 
 type tr struct {
@@ -81,6 +83,19 @@ type tr struct {
 	loopVars  []string            // non-nil inside a loop body: state tuple of the loop
 	inLoop    bool
 	loopPush  string // inside a MutRange loop body: the range variable pushed onto the rebuilt slice at every `next`
+}
+
+func (x *tr) isSet(e ast.Expr) bool {
+	id, ok := e.(*ast.Ident)
+	if !ok {
+		return false
+	}
+	for _, n := range x.t.Sets {
+		if n == id.Name {
+			return true
+		}
+	}
+	return false
 }
 
 func (x *tr) errf(format string, a ...any) string {
@@ -129,7 +144,7 @@ func (x *tr) ident(name string) string {
 		return name
 	case "nil":
 		return "GoLib.nil"
-	case "end", "from", "at", "do", "then", "fun", "let", "match", "with", "in", "open", "def", "where", "show", "have", "by", "prefix", "local", "instance", "class", "structure", "namespace", "section":
+	case "end", "from", "at", "do", "then", "fun", "let", "match", "with", "in", "open", "def", "where", "show", "have", "by", "prefix", "local", "instance", "class", "structure", "namespace", "section", "exists", "forall", "if", "else":
 		return name + "'"
 	}
 	return name
@@ -227,6 +242,8 @@ func (x *tr) expr(e ast.Expr) string {
 			return "(GoLib.quo " + a + " " + b + ")"
 		case token.REM:
 			return "(GoLib.rem " + a + " " + b + ")"
+		case token.AND:
+			return "(GoLib.band " + a + " " + b + ")"
 		}
 		return x.errf("binary %s", v.Op)
 	case *ast.CallExpr:
@@ -325,6 +342,10 @@ func (x *tr) assigned(stmts []ast.Stmt) []string {
 				set[x.ident(v.Name)] = true
 			}
 		case *ast.SelectorExpr:
+			if id, ok := v.X.(*ast.Ident); ok && !decl[id.Name] {
+				set[x.ident(id.Name)] = true
+			}
+		case *ast.IndexExpr:
 			if id, ok := v.X.(*ast.Ident); ok && !decl[id.Name] {
 				set[x.ident(id.Name)] = true
 			}
@@ -515,7 +536,7 @@ func (x *tr) stmts(list []ast.Stmt, fall string, ind string) string {
 					val = x.expr(vs.Values[i])
 				} else if id, ok := vs.Type.(*ast.Ident); ok {
 					switch id.Name {
-					case "int", "int64", "int32":
+					case "int", "int64", "int32", "uint32", "uint64", "uint":
 						val = "(0 : Int)"
 					case "string":
 						val = "\"\""
@@ -541,7 +562,26 @@ func (x *tr) stmts(list []ast.Stmt, fall string, ind string) string {
 				return x.errf("assignment %s", x.src(v))
 			}
 		}
+		if len(v.Lhs) == 1 && len(v.Rhs) == 1 {
+			if cl, ok := v.Rhs[0].(*ast.CompositeLit); ok && x.isSet(v.Lhs[0]) && len(cl.Elts) == 0 {
+				// `s := map[K]struct{}{}`
+				return "let " + x.ident(v.Lhs[0].(*ast.Ident).Name) + " := GoLib.setEmpty\n" + ind + next()
+			}
+			if ix, ok := v.Lhs[0].(*ast.IndexExpr); ok && x.isSet(ix.X) && v.Tok == token.ASSIGN {
+				// `s[k] = struct{}{}`
+				n := x.ident(ix.X.(*ast.Ident).Name)
+				return "let " + n + " := (GoLib.setAdd " + n + " " + x.expr(ix.Index) + ")\n" + ind + next()
+			}
+		}
 		if len(v.Lhs) == 2 && len(v.Rhs) == 1 {
+			if ix, ok := v.Rhs[0].(*ast.IndexExpr); ok && x.isSet(ix.X) {
+				// `_, ok := s[k]`
+				a, ok1 := v.Lhs[0].(*ast.Ident)
+				b, ok2 := v.Lhs[1].(*ast.Ident)
+				if ok1 && ok2 {
+					return "let (" + x.pat(a.Name) + ", " + x.pat(b.Name) + ") := ((), GoLib.setHas " + x.ident(ix.X.(*ast.Ident).Name) + " " + x.expr(ix.Index) + ")\n" + ind + next()
+				}
+			}
 			// comma-ok form / two-result call: the right-hand side is a pair
 			a, ok1 := v.Lhs[0].(*ast.Ident)
 			b, ok2 := v.Lhs[1].(*ast.Ident)
@@ -952,10 +992,37 @@ func leaves(stmts []ast.Stmt) bool {
 				return false
 			case *ast.ReturnStmt:
 				found = true
+			case *ast.ForStmt:
+				// a `break` inside belongs to the inner loop; a `return` would still leave
+				if hasReturn(v.Body.List) {
+					found = true
+				}
+				return false
+			case *ast.RangeStmt:
+				if hasReturn(v.Body.List) {
+					found = true
+				}
+				return false
 			case *ast.BranchStmt:
 				if v.Tok == token.BREAK {
 					found = true
 				}
+			}
+			return !found
+		})
+	}
+	return found
+}
+
+func hasReturn(stmts []ast.Stmt) bool {
+	found := false
+	for _, s := range stmts {
+		ast.Inspect(s, func(n ast.Node) bool {
+			switch n.(type) {
+			case *ast.FuncLit:
+				return false
+			case *ast.ReturnStmt:
+				found = true
 			}
 			return !found
 		})
@@ -1209,6 +1276,9 @@ func translate(t *target) (string, []string) {
 	})
 	x.fnFall = fall
 	body := x.stmts(fbody.List, fall, "  ")
+	if t.Pre != "" {
+		body = t.Pre + "\n  " + body
+	}
 	doc := t.Doc
 	if doc == "" {
 		doc = "translated from " + t.File
